@@ -116,7 +116,7 @@ def run(seed, cases, max_ops=60, max_keys=40, tag="seq", life=False):
     ops, impl, model, rep = base + ".ops", base + ".impl", base + ".model", base + ".json"
     rc, out = C.sh([C.HARNESS_BIN, "seq", "--seed", str(seed), "--cases", str(cases), "--max-ops", str(max_ops),
                     "--max-keys", str(max_keys), "--ops", ops, "--impl", impl, "--report", rep,
-                    "--progress", base + ".progress"] + (["--life", "1"] if life else []), timeout=3600)
+                    "--progress", base + ".progress"] + (["--life", "1"] if life else []), timeout=1800)
     res = {"harness_rc": rc, "diffs": [], "report": None, "model_ran": False, "files": (ops, impl, model)}
     if rc != 0 or not os.path.exists(rep):
         res["harness_error"] = out[-2000:]
